@@ -581,7 +581,7 @@ func init() {
 	core.Register(&core.Monitor{
 		ID: "C01", Level: "exploration", Plan: plan, Run: run,
 		Rule: "records: per registry type (+19 unknown codes, 1 PrivateHandle type) x boundary-biased model field values; oracle = independent RFC-layout encoder; " +
-			"checks PackRR(struct)==model octets, UnpackRR(model octets)==struct, Unpack->Pack==octets; messages likewise; all 65536 flag words and all RCODEs 0..4095 with/without OPT enumerated; " +
+			"checks PackRR(struct)==model octets, UnpackRR(model octets)==struct, Unpack->Pack==octets, decoded values unchanged after the input buffer is overwritten; messages likewise; all 65536 flag words and all RCODEs 0..4095 with/without OPT enumerated; " +
 			"non-trivial = record/message with non-empty RDATA/sections, distinct by wire octets",
 		Assumptions: []string{"the model's RFC layout table (DESIGN.md Appendix A) is right", "only model-well-formed records are required to round-trip"},
 		MinObserved: []string{"header_words", "rcodes", "messages"},
